@@ -1181,7 +1181,20 @@ def judge_shape(spec, rec):
               suppress_matrix_messages=spec['suppress'])
     want_shape = list(tshape)
     member = tstr
-    if comp == 'equality':
+    warm = comp in ('equality', 'entries-option') and sshape != want_shape and len(spec['target'] + spec['student'] + str(spec['msg_detail'])) % 2 == 0
+    if warm:
+        # history: the grader has no configured answer (the target comes with each call, as edX's expect value) and has
+        # just graded a submission of the student's shape against a target of that same shape - then it meets the same
+        # submission with a target of ANOTHER shape (a seeded change remembered validated input shapes per grader)
+        extra = {'entry_partial_credit': 'proportional'} if comp == 'entries-option' else {}
+        inner = MatrixGrader(**dict(kw, **extra))
+        call(inner, sstr, sstr)
+        call(inner, sstr, sstr)
+        rec.cls('shape/grader-graded-this-shape-before')
+
+        def g(expect, student, _inner=inner):
+            return _inner(tstr, student)
+    elif comp == 'equality':
         g = MatrixGrader(answers=tstr, **kw)
     elif comp == 'entries-option':
         g = MatrixGrader(answers=tstr, entry_partial_credit='proportional', **kw)
